@@ -876,8 +876,12 @@ def gen_service_yaml(cx, spec, host, need_ops):
     y = {"type": "google.api.Service", "config_version": 3, "name": host, "apis": [], "http": {"rules": []}}
     if need_ops or rng.random() < 0.3:
         y["apis"].append({"name": "google.longrunning.Operations"})
-        y["http"]["rules"].append({"selector": "google.longrunning.Operations.GetOperation",
-                                   "get": "/v1/{name=projects/*/operations/*}"})
+        rule = {"selector": "google.longrunning.Operations.GetOperation", "get": "/v1/{name=projects/*/operations/*}"}
+        if rng.random() < 0.4:
+            rule["additional_bindings"] = [{"get": "/v1/{name=organizations/*/operations/*}"}]
+            if rng.random() < 0.5:
+                rule["additional_bindings"].append({"get": "/v1beta1/{name=folders/*/operations/*}"})
+        y["http"]["rules"].append(rule)
         if rng.random() < 0.6:
             y["http"]["rules"].append({"selector": "google.longrunning.Operations.CancelOperation",
                                        "post": "/v1/{name=projects/*/operations/*}:cancel", "body": "*"})
